@@ -488,6 +488,7 @@ func genC06(c *Ctx) {
 			}
 		}
 	}
+	genTrustedThenVerify(c)
 }
 
 func seq(a, b int) []int {
@@ -880,5 +881,32 @@ func genC18(c *Ctx) {
 		}
 		c.Case("post-state-invariants", "expect ok #", inv)
 		_ = seqOps
+	}
+	genTrustedThenVerify(c)
+}
+
+// genTrustedThenVerify: the stateless methods of the object after the pool was filled through TrustedAdd: an invalid
+// share of each kind is added unverified for one signer, then VerifyShare / VerifyAndAdd are called with the very same
+// bytes, with the valid share of that signer and with the same bytes for another signer; the verdicts are those of the
+// sequential model (VerifyShare never depends on the pool).
+func genTrustedThenVerify(c *Ctx) {
+	for _, nt := range [][2]int{{3, 1}, {5, 2}} {
+		for _, kind := range badKinds {
+			s := newThSetup(c, nt[0], nt[1])
+			bad := s.badShare(c, 1, kind)
+			ops := []string{
+				fmt.Sprintf("VS:1:%s", hx(bad)),
+				fmt.Sprintf("T:1:%s", hx(bad)),
+				fmt.Sprintf("VS:1:%s", hx(bad)),
+				fmt.Sprintf("VS:1:%s", hx(s.shares[1])),
+				fmt.Sprintf("VS:0:%s", hx(bad)),
+				fmt.Sprintf("V:1:%s", hx(bad)),
+				fmt.Sprintf("T:0:%s", hx(s.shares[0])),
+				fmt.Sprintf("VS:0:%s", hx(s.shares[0])),
+				fmt.Sprintf("VS:1:%s", hx(bad)),
+				"H:1", "E", "S", "E",
+			}
+			c.Case("object-trusted-add-then-verify/"+kind, "th.obj "+s.envLine()+" "+strings.Join(ops, " "), runThOps(s, ops))
+		}
 	}
 }
